@@ -49,6 +49,38 @@ def run(ctx):
                               dict(kind='subscription', version=label, key=s['key'], target_exists=s['exists'], declared=dict(positional=s['npos'], named=s['names']),
                                    callback_signature=s['sig'], how='construct the controller, inspect.signature(callback).bind(entity, *declared positional, **declared named)'))
     ctx.obligation('translator: extracted signatures reproduce inspect.signature(callback).bind on every pair', bind_disagree is None, str(bind_disagree))
+    dynamic_clause(ctx)
+
+
+def dynamic_clause(ctx):
+    """a complete minimal battle encoded against each version parses in strict mode and yields a summary"""
+    import os, random, tempfile, shutil
+    from tools import battle
+    from replay_parser import ReplayParser
+    tmp = tempfile.mkdtemp(prefix='verif-c10-')
+    try:
+        jobs = [('wows', v) for v in battle.wows_versions()] + [('wot', '1_8_0'), ('wot', '1_10_0'), ('wowp', '1_7_5'), ('wowp', '2_1_17'), ('wowp', '2_1_20'), ('wowp', '0_3_3')]
+        for game, v in jobs:
+            label = game + '/' + v
+            ext = {'wows': 'wowsreplay', 'wot': 'wotreplay', 'wowp': 'wowpreplay'}[game]
+            p = os.path.join(tmp, v + '.' + ext)
+            rng = random.Random(ctx.rng.randrange(10 ** 9))
+            if game == 'wows': battle.write_wows(p, v, rng)
+            else: battle.write_simple(p, game, v, rng)
+            ctx.case(('battle', label)); ctx.count('battle:' + game)
+            try:
+                h = ReplayParser(p, strict=True).get_info()['hidden']; ok = h is not None; why = 'hidden is None'
+            except Exception as ex:
+                ok = False; why = '%s: %s' % (type(ex).__name__, str(ex)[:160])
+            if not ok:
+                key = ''
+                for cand in ('onNewPlayerSpawnedInBattle', 'onBattleEnd'):
+                    if cand in why: key = 'Avatar_' + cand
+                ctx.deviation('version-inconsistent', {'pair': [label, key]},
+                              dict(kind='battle', version=label, outcome=why, how='tools/battle.write_wows / write_simple for that version; ReplayParser(path, strict=True).get_info()'))
+            os.unlink(p)
+    finally:
+        shutil.rmtree(tmp, ignore_errors=True)
 
 
 def replay(ctx, path):
